@@ -1,0 +1,9 @@
+//go:build verif
+
+// Contracts for package wos, checked by /verif. Comments only.
+package wos
+
+// C19/C06/C20: a configuration value that does not start with '$' is taken
+// literally, whatever it contains (a password, a URL, a number spelling).
+//@ func Getenv props=C19,C06,C20
+//@   ensures [literal] !hasprefix(s, "$") ==> result == s
